@@ -1022,4 +1022,126 @@ theorem chainInv_put {compound : Bool} {ch : Chain} (h : ChainInv compound ch) (
           · right; rw [ex]; exact ⟨r1, r2s⟩
           · exact Or.inl hx'
 
+/-! ### delete, cursor set, cursor delete, histories -/
+
+/-- a stretch of one node replaced by at most one node whose keys are among the old ones -/
+theorem chainInv_shrink {compound : Bool} {ch : Chain} (h : ChainInv compound ch) (i : Nat) (n : Node) (hn : ch[i]? = some n)
+    (mid' : Chain) (hm : ∀ m ∈ mid', NodeInv compound m ∧ ∀ x ∈ keys m, x ∈ keys n) (ho : mid'.Pairwise (Above compound)) :
+    ChainInv compound (ch.take i ++ (mid' ++ ch.drop (i + 1))) := by
+  obtain ⟨d1, _⟩ := chain_decomp ch i n hn
+  have h' : ChainInv compound (ch.take i ++ ([n] ++ ch.drop (i + 1))) := by rw [← d1]; exact h
+  exact chainInv_replace h' (fun m hmm => (hm m hmm).1) ho (fun m hmm x hx => Or.inl ⟨n, by simp, (hm m hmm).2 x hx⟩)
+
+/-- removal of a record: the node shrinks (`_sblk_rmkv`) or, with its last record, leaves the chain (`_lx_del_sblk_lw`) -/
+theorem chainInv_rmAt {compound : Bool} {ch : Chain} (h : ChainInv compound ch) (i pos : Nat) (n : Node) (hn : ch[i]? = some n)
+    (hpos : pos < n.pnum) : ChainInv compound (rmAt ch i pos) := by
+  have hinv := h.nodes n (List.mem_of_getElem? hn)
+  simp only [rmAt, hn]
+  split
+  · rw [List.eraseIdx_eq_take_drop_succ]
+    have := chainInv_shrink h i n hn [] (fun m hm => by simp at hm) List.Pairwise.nil
+    simpa using this
+  · rename_i h1
+    obtain ⟨_, d2⟩ := chain_decomp ch i n hn
+    rw [d2]
+    obtain ⟨c1, c2, c3, c4⟩ := core_rmkv hinv.blk hinv.toCore pos (by rw [← hinv.pnum]; exact hpos)
+    have hp := hinv.pos
+    refine chainInv_shrink h i n hn [sync (rmkv n pos)] (fun m hm => ?_) (List.pairwise_singleton _ _)
+    simp at hm
+    rw [hm]
+    refine ⟨nodeInv_sync c1.toGeo c2 (by rw [c3]; omega), fun x hx => ?_⟩
+    have hx' : x ∈ keys (rmkv n pos) := hx
+    rw [c4] at hx'
+    exact List.mem_of_mem_eraseIdx hx'
+
+/-- a position found by key lies inside a node of the chain -/
+theorem curPos_spec {compound : Bool} {ch : Chain} (h : ChainInv compound ch) (k : Bytes) (c : Nat) (i pos : Nat)
+    (e : curPos compound ch k c = some (i, pos)) : ∃ n, ch[i]? = some n ∧ pos < n.pnum := by
+  simp only [curPos] at e
+  split at e
+  · exact absurd e (by simp)
+  · split at e
+    · exact absurd e (by simp)
+    · rename_i n hn
+      split at e
+      · rename_i hf
+        simp only [Option.some.injEq, Prod.mk.injEq] at e
+        obtain ⟨e1, e2⟩ := e
+        have hinv := h.nodes n (List.mem_of_getElem? hn)
+        obtain ⟨hfound, _⟩ := found_findPi hinv k c
+        exact ⟨n, by rw [← e1]; exact hn, by rw [← e2]; exact (hfound.hit hf).1⟩
+      · exact absurd e (by simp)
+
+/-- **`iwkv_del` keeps the chain invariant** (incl. the removal of a node at the head, in the middle or at the tail of the chain) -/
+theorem chainInv_del {compound : Bool} {ch : Chain} (h : ChainInv compound ch) (k : Bytes) (c : Nat) (ch' : Chain)
+    (e : del compound ch k c = some ch') : ChainInv compound ch' := by
+  simp only [del] at e
+  split at e
+  · rename_i i pos hq
+    simp only [Option.some.injEq] at e
+    obtain ⟨n, hn, hlt⟩ := curPos_spec h k c i pos hq
+    rw [← e]; exact chainInv_rmAt h i pos n hn hlt
+  · exact absurd e (by simp)
+
+/-- **`iwkv_cursor_set` keeps the chain invariant** -/
+theorem chainInv_curSet {compound : Bool} {ch : Chain} (h : ChainInv compound ch) (i pos : Nat) (val : Bytes) (n : Node)
+    (hn : ch[i]? = some n) (hpos : pos < n.pnum) (ch' : Chain) (e : curSet ch i pos val = .ok ch') : ChainInv compound ch' := by
+  have hinv := h.nodes n (List.mem_of_getElem? hn)
+  simp only [curSet, hn] at e
+  cases hq : updatekv n pos val with
+  | ok n' =>
+    rw [hq] at e
+    simp only [setNode, PutRes.ok.injEq] at e
+    have := core_updatekv hinv.blk hinv.toCore pos (by rw [← hinv.pnum]; exact hpos) val n' hq
+    obtain ⟨_, d2⟩ := chain_decomp ch i n hn
+    rw [← e, d2]
+    refine chainInv_shrink h i n hn [sync n'] (fun m hm => ?_) (List.pairwise_singleton _ _)
+    simp at hm
+    rw [hm]
+    refine ⟨nodeInv_sync this.1 this.2.1 (by rw [this.2.2.1]; exact hinv.pos), fun x hx => ?_⟩
+    have hx' : x ∈ keys n' := hx
+    rw [this.2.2.2] at hx'; exact hx'
+  | full => rw [hq] at e; simp [setNode] at e
+  | maxkvsz => rw [hq] at e; simp [setNode] at e
+
+theorem chainInv_step {compound : Bool} {ch : Chain} (h : ChainInv compound ch) (op : KvNode.Op) (hop : op.ok) :
+    ChainInv compound (step compound ch op) := by
+  cases op with
+  | put k c v =>
+    simp only [step]
+    cases hq : put compound ch k c v with
+    | ok ch' => exact chainInv_put h k c v hop.1 hop.2 ch' hq
+    | failed _ => exact h
+  | del k c =>
+    simp only [step]
+    cases hq : del compound ch k c with
+    | none => exact h
+    | some ch' => exact chainInv_del h k c ch' hq
+  | cset k c v =>
+    simp only [step]
+    cases hq : curPos compound ch k c with
+    | none => exact h
+    | some ip =>
+      obtain ⟨i, pos⟩ := ip
+      obtain ⟨n, hn, hlt⟩ := curPos_spec h k c i pos hq
+      show ChainInv compound (match curSet ch i pos v with | .ok ch' => ch' | _ => ch)
+      cases hr : curSet ch i pos v with
+      | ok ch' => exact chainInv_curSet h i pos v n hn hlt ch' hr
+      | failed _ => exact h
+  | cdel k c =>
+    simp only [step]
+    cases hq : curPos compound ch k c with
+    | none => exact h
+    | some ip =>
+      obtain ⟨i, pos⟩ := ip
+      obtain ⟨n, hn, hlt⟩ := curPos_spec h k c i pos hq
+      exact chainInv_rmAt h i pos n hn hlt
+
+theorem chainInv_run {compound : Bool} {ch : Chain} (h : ChainInv compound ch) (ops : List KvNode.Op) (hops : ∀ op ∈ ops, op.ok) :
+    ChainInv compound (run compound ch ops) := by
+  induction ops generalizing ch with
+  | nil => exact h
+  | cons op ops ih =>
+    exact ih (chainInv_step h op (hops op (List.mem_cons_self))) (fun o ho => hops o (List.mem_cons_of_mem _ ho))
+
 end IwModel.KvChain
